@@ -32,7 +32,7 @@ let show_send s = match s with
       (hex_of_str (join [n_of_int 32] scopes)) (show_secret grant)
 let show_result r = match r with
   | RResp true -> "=401" | RResp false -> "=ok"
-  | RErr ENoCred -> "=nocred" | RErr EMissing -> "=missing" | RErr EFetch -> "=fetch" | RErr ERewind -> "=rewind"
+  | RErr ENoCred -> "=nocred" | RErr EMissing -> "=missing" | RErr EFetch -> "=fetch" | RErr ERewind -> "=rewind" | RErr ETransport -> "=transport"
   | RBad -> "=BAD"
 
 let parse_answer t =
@@ -41,6 +41,7 @@ let parse_answer t =
   | 'U' -> A401 (str_of_hex (String.sub t 1 (String.length t - 1)))
   | 'T' -> ATok (n_of_int (int_of_string (String.sub t 1 (String.length t - 1))))
   | 'F' -> AFail
+  | 'X' -> AErr
   | _ -> failwith "answer"
 
 let () =
